@@ -951,6 +951,17 @@ pub fn c15() -> Result<u64, String> {
                 if pm.num_tiles() != tiles.len() { return Ok(format!("open reported success with {} of {} tiles", pm.num_tiles(), tiles.len())); }
                 for id in tiles.keys().take(3) { if pm.get_tile_by_id(*id)?.is_none() { return Ok(format!("lookup of existing tile {id} reported 'no such tile'")); } } Ok(String::new()) });
             match res { Ok(Err(_)) => {}, Ok(Ok(m)) => return Err(format!("open+lookups returned Ok although the stream fails from operation {f} of {ops} ({c:?}, {} tiles) {m}", tiles.len())), Err(p) => return Err(format!("open panicked on a fault at operation {f}: {p}")) } }
+        // partial opens whose range starts strictly INSIDE a leaf directory (the leaf's first id lies outside the range): a fault anywhere is an error
+        if size > 100 {
+            let keys: Vec<u64> = tiles.keys().copied().collect();
+            for (a, z) in [(keys[100], keys[200]), (keys[4500], keys[4600]), (keys[4000], keys[4200])] {
+                let mut s = FaultyStream::with_bytes(full.clone(), usize::MAX); let want = { let pm = PMTiles::from_reader_partially(&mut s, a..=z).map_err(|e| e.to_string())?; pm.num_tiles() }; let ops = s.ops();
+                for f in 0..ops { n += 1; let mut s = FaultyStream::with_bytes(full.clone(), f);
+                    match quiet(|| PMTiles::from_reader_partially(&mut s, a..=z).map(|pm| pm.num_tiles())) { Ok(Err(_)) => {},
+                        Ok(Ok(k)) => return Err(format!("partial open with range {a}..={z} (inside a leaf directory) returned Ok with {k} of {want} tiles although the stream fails from operation {f} of {ops} ({} tiles, {c:?})", tiles.len())),
+                        Err(p) => return Err(format!("partial open panicked on a fault at operation {f}: {p}")) } }
+            }
+        }
         // lookups that CONTINUE after a failed lookup (same tile again, tiles sharing its content): an answer is an error or the right bytes
         if size <= 100 {
             let mut dup = tiles.clone(); let first = tiles.iter().next().map(|(k, v)| (*k, v.clone())); if let Some((k0, v0)) = first { dup.insert(k0 + 500, v0.clone()); dup.insert(k0 + 501, v0); }
